@@ -37,11 +37,12 @@ const (
 	opSpawn
 	opSelect
 	opChoose
+	opTimer
 )
 
 var opNames = map[opKind]string{opNone: "none", opStart: "start", opYield: "yield", opSend: "send", opRecv: "recv",
 	opClose: "close", opWgAdd: "wg.add", opWgWait: "wg.wait", opLock: "lock", opUnlock: "unlock", opRLock: "rlock",
-	opRUnlock: "runlock", opOnce: "once", opAtomic: "atomic", opSpawn: "go", opSelect: "select", opChoose: "choose"}
+	opRUnlock: "runlock", opOnce: "once", opAtomic: "atomic", opSpawn: "go", opSelect: "select", opChoose: "choose", opTimer: "timer"}
 
 // pendingOp is what a thread declared at its scheduling point.
 type pendingOp struct {
@@ -70,6 +71,9 @@ type thread struct {
 	// directly or through its ancestors, inside a Once function (a helper pool built on first use)
 	inOnce   *Once
 	fromOnce bool
+	// timer: a daemon thread that models a time.Timer/Ticker (see timer.go); longTimer: fires only at quiescence
+	timer     bool
+	longTimer bool
 }
 
 // PointRec describes one branching point of an execution.
@@ -123,7 +127,7 @@ type Exec struct {
 	// built on first use. Such a Once is run again by the next execution, so the pool is rebuilt each time.
 	LeakFromOnce bool
 	Exited       bool // os.Exit was called
-	ExitCode   int
+	ExitCode     int
 }
 
 // Choices returns the choice vector of the execution.
@@ -136,22 +140,23 @@ func (x *Exec) Choices() []int {
 }
 
 type sched struct {
-	opt      Options
-	threads  []*thread
-	running  *thread
-	prefix   []int
-	pos      int
-	x        *Exec
-	nextObj  int
-	objs     []stateful
-	aborting bool
-	finished bool
-	endCh    chan struct{}
-	wg       sync.WaitGroup // real goroutines of this execution
-	seq      uint64         // arrival counter for FIFO queues
-	logh     uint64
-	stateSet map[uint64]struct{}
-	extra    func() uint64 // harness state digest
+	hasTimers bool
+	opt       Options
+	threads   []*thread
+	running   *thread
+	prefix    []int
+	pos       int
+	x         *Exec
+	nextObj   int
+	objs      []stateful
+	aborting  bool
+	finished  bool
+	endCh     chan struct{}
+	wg        sync.WaitGroup // real goroutines of this execution
+	seq       uint64         // arrival counter for FIFO queues
+	logh      uint64
+	stateSet  map[uint64]struct{}
+	extra     func() uint64 // harness state digest
 }
 
 type stateful interface {
@@ -292,6 +297,19 @@ func (s *sched) threadExit(t *thread) {
 	next.wake <- struct{}{}
 }
 
+func (s *sched) timerThreads() []*thread {
+	if !s.hasTimers {
+		return nil
+	}
+	var out []*thread
+	for _, t := range s.threads {
+		if t.timer && !t.done {
+			out = append(out, t)
+		}
+	}
+	return out
+}
+
 func (s *sched) isEnabled(t *thread) bool {
 	if t.done {
 		return false
@@ -341,12 +359,42 @@ func (s *sched) pick(self *thread) *thread {
 			sort.SliceStable(rest, func(i, j int) bool { return rest[i].delayed < rest[j].delayed })
 		}
 	}
+	// timers: behind every other enabled thread whatever the policy; long ones only when nothing else can run;
+	// once every ordinary thread has finished, the execution is over (timers are daemons)
+	if len(s.timerThreads()) > 0 {
+		ordinaryLeft, ordinaryEnabled := false, false
+		for _, t := range s.threads {
+			if !t.timer && !t.done {
+				ordinaryLeft = true
+			}
+		}
+		for _, t := range en {
+			if !t.timer {
+				ordinaryEnabled = true
+			}
+		}
+		if !ordinaryLeft {
+			en = nil
+		} else {
+			var ord, tim []*thread
+			for i, t := range en {
+				switch {
+				case i < first || !t.timer:
+					ord = append(ord, t)
+				case t.longTimer && ordinaryEnabled:
+				default:
+					tim = append(tim, t)
+				}
+			}
+			en = append(ord, tim...)
+		}
+	}
 	s.recordState()
 	if len(en) == 0 {
 		unfinished := false
 		allOnce := true
 		for _, t := range s.threads {
-			if !t.done {
+			if !t.done && !t.timer {
 				unfinished = true
 				allOnce = allOnce && t.fromOnce
 				s.x.Blocked = append(s.x.Blocked, s.describe(t))
